@@ -165,7 +165,8 @@ pub fn run(s: &mut Session, ctx: &Ctx) {
             let choices = n * 6;
             let seqs = choices.pow(depth as u32);
             // sample the sequences deterministically when there are too many
-            let stride = if ctx.thorough { 1 } else { (seqs / 40).max(1) };
+            // thorough: every sequence for n <= 3 (18^3 = 5832 per start), about 400 per start for n = 4
+            let stride = if ctx.thorough { if n <= 3 { 1 } else { (seqs / 400).max(1) } } else { (seqs / 40).max(1) };
             let mut sq = (code * 7) % stride;
             while sq < seqs {
                 let mut q = sq;
